@@ -1,5 +1,8 @@
 import Duckling.Model.Compile
 import Duckling.Generated.Effects
+import Duckling.Lemmas.ValNoCrash
+import Duckling.Lemmas.NoCrash
+import Duckling.Lemmas.EvalNoCrash
 /-
   C09 — every failure is a compile error, never a crash.
 
@@ -13,128 +16,24 @@ import Duckling.Generated.Effects
                                    eleven reviewed ones (a new `raise TypeError(…)` changes the inventory and breaks this theorem);
   * `C09_trace_defined`           every located compile error of the model carries a trace (`stack_traceback` is total on it);
   * `C09_blank_line_only_via_tree` the parser never hands a blank line to the interpreter's `split(maxsplit=1)[0]` (text input): see C03_blank_ignored.
-  Not yet proved: that `exec` as a whole never yields `crash` on parser output (the per-class argument
-  guarantees are in `simplePre_spec`); exceptions with no modelled site and inputs outside the model's domain
-  are reached by the grammar-aware fuzzing only — `partial`.
+  * `C09_scanner_never_crashes`   the scanner never raises a host exception and every number token it finishes has a text
+                                   `[-]digits[.digits]` with at least one digit — exactly what `int()`/`float()` accept
+                                   (invariant of the scanner state through every `addCharToToken`/`__resolve_token_return` step);
+  * `C09_evaluator_never_crashes` `Tokenizer.tokenize` on ANY text and ANY variable environment is a value, a compile error or
+                                   out of the model — never a crash (scanner + tree builder + operators, by induction on depth);
+  * `C09_interpreter_crash_only_blank_line`  for EVERY program tree, depth, context and state, the only non-compile exception
+                                   the interpreter can exhibit is the IndexError of a blank command line — which the parser never
+                                   produces from text (`C03_blank_ignored`); a walk over every function of the interpreter.
+  Outside the theorems: exceptions with no modelled site (host MemoryError/RecursionError — the known findings D13/D12/D19)
+  and inputs outside the model's domain are reached by the grammar-aware fuzzing only — `partial`.
 -/
 namespace Duckling.Props.C09
 open Duckling
 
-def Outcome.isCrash {α : Type} : Outcome α → Bool
-  | .crash _ => true
-  | _ => false
+theorem C09_str_never_crashes (v : Val) : Outcome.isCrash v.pyStr = false := pyStr_isCrash v
 
-theorem mkFlt_no_crash (m : Int) (k : Nat) : Outcome.isCrash (Val.mkFlt m k) = false := by
-  unfold Val.mkFlt; simp only; split <;> rfl
-
-theorem mkNum_no_crash (f : Bool) (m : Int) (k : Nat) : Outcome.isCrash (Val.mkNum f m k) = false := by
-  unfold Val.mkNum
-  split
-  · exact mkFlt_no_crash m k
-  · split <;> rfl
-
-theorem C09_str_never_crashes (v : Val) : Outcome.isCrash v.pyStr = false := by
-  cases v with
-  | int i => simp only [Val.pyStr]; split <;> rfl
-  | flt m k => simp only [Val.pyStr, Val.reprFlt]; split <;> rfl
-  | str s => rfl
-  | bool b => rfl
-  | list l => rfl
-
-theorem bind_no_crash {α β : Type} (x : Outcome α) (f : α → Outcome β)
-    (hx : Outcome.isCrash x = false) (hf : ∀ a, Outcome.isCrash (f a) = false) : Outcome.isCrash (x >>= f) = false := by
-  cases x with
-  | ok a => exact hf a
-  | cerr k => rfl
-  | crash e => simp [Outcome.isCrash] at hx
-  | oom w => rfl
-
-theorem cmpOp_no_crash (op : String) (l r : Val) : Outcome.isCrash (Val.cmpOp op l r) = false := by
-  unfold Val.cmpOp; simp only []
-  split
-  · rfl
-  · rfl
-  · split <;> rfl
-
-theorem addOp_no_crash (l r : Val) : Outcome.isCrash (Val.addOp l r) = false := by
-  unfold Val.addOp
-  split
-  · exact bind_no_crash _ _ (C09_str_never_crashes _) (fun _ => rfl)
-  · exact bind_no_crash _ _ (C09_str_never_crashes _) (fun _ => rfl)
-  · rfl
-  · split
-    · exact mkNum_no_crash _ _ _
-    · rfl
-
-theorem numOp_no_crash (op : String) (a : Int) (ka : Nat) (fa : Bool) (b : Int) (kb : Nat) (fb : Bool) :
-    Outcome.isCrash (Val.numOp op a ka fa b kb fb) = false := by
-  unfold Val.numOp; simp only []
-  split
-  · exact mkNum_no_crash _ _ _
-  · exact mkNum_no_crash _ _ _
-  · split
-    · rfl
-    · split
-      · exact mkFlt_no_crash _ _
-      · rfl
-  · split
-    · rfl
-    · exact mkNum_no_crash _ _ _
-  · split
-    · rfl
-    · exact mkNum_no_crash _ _ _
-  · split
-    · rfl
-    · split
-      · split
-        · rfl
-        · exact mkNum_no_crash _ _ _
-      · split
-        · rfl
-        · split
-          · rfl
-          · split
-            · exact mkFlt_no_crash _ _
-            · rfl
-  · rfl
-
-theorem arithOp_no_crash (op : String) (l r : Val) : Outcome.isCrash (Val.arithOp op l r) = false := by
-  unfold Val.arithOp
-  split
-  · split
-    · rfl
-    · split
-      · split
-        · rfl
-        · split <;> rfl
-      · split <;> rfl
-      · split
-        · rfl
-        · exact numOp_no_crash _ _ _ _ _ _ _
-  · split
-    · rfl
-    · split
-      · split
-        · rfl
-        · split <;> rfl
-      · split <;> rfl
-      · split
-        · rfl
-        · exact numOp_no_crash _ _ _ _ _ _ _
-  · rfl
-
-theorem C09_operators_never_crash (op : String) (l r : Val) : Outcome.isCrash (Val.binop op l r) = false := by
-  unfold Val.binop
-  split
-  · split <;> rfl
-  · split <;> rfl
-  · split <;> rfl
-  · exact cmpOp_no_crash _ _ _
-  · exact cmpOp_no_crash _ _ _
-  · exact cmpOp_no_crash _ _ _
-  · exact cmpOp_no_crash _ _ _
-  · exact addOp_no_crash _ _
-  · exact arithOp_no_crash _ _ _
+theorem C09_operators_never_crash (op : String) (l r : Val) : Outcome.isCrash (Val.binop op l r) = false :=
+  binop_no_crash op l r
 
 theorem C09_raise_sites_inventory :
     Generated.Effects.raisesNonCompile = [
@@ -154,5 +53,24 @@ theorem C09_raise_sites_inventory :
 theorem C09_trace_defined (ctx : Ctx) (pos : Pos) (st : St) (k : EK) :
     ∃ t ps, (raise ctx pos st k : Res) = .err { k := k, trace := some t, prints := some ps } ∧ t ≠ [] :=
   ⟨_, _, rfl, by simp [Ctx.trace]⟩
+
+/-- the scanner: no host exception, and number tokens are always convertible -/
+theorem C09_scanner_never_crashes (vars : List Str) (inp : Str) :
+    (∀ x, lex vars inp ≠ .crash x) ∧
+    ∀ toks, lex vars inp = .ok toks → ∀ t ∈ toks, t.cls = .num → GoodNumText t.text :=
+  lex_good vars inp
+
+/-- the expression evaluator: any text, any environment -/
+theorem C09_evaluator_never_crashes (vars : VarEnv) (s : Str) (x : String) : tokenize vars s ≠ .crash x :=
+  evalSafe vars s x
+
+/-- the whole interpreter: any program tree, any depth, any context, any state -/
+theorem C09_interpreter_crash_only_blank_line (d : Nat) (nodes : List Node) (ctx : Ctx) (st : St) (x : String)
+    (h : exec d nodes ctx st = .crash x) : x = "IndexError" :=
+  (exec_crash_only_index evalSafe d nodes ctx st).out x h
+
+/-- non-vacuity: a well-shaped number text exists and is accepted -/
+example : GoodNumText "-12.5".toList :=
+  ⟨true, true, "12".toList, "5".toList, ⟨by simp [Digits, isDigitC], by simp [Digits, isDigitC], by decide, by simp⟩, by simp⟩
 
 end Duckling.Props.C09
